@@ -1,5 +1,8 @@
 // MPI instantiation unit: run-time distributed solver, CPR, Schur pressure
 // correction, subdomain deflation, distributed matrix kernels.
+#include <complex>
+#include <amgcl/value_type/static_matrix.hpp>
+#include <amgcl/value_type/complex.hpp>
 #include <vector>
 #include <tuple>
 #include <boost/property_tree/ptree.hpp>
@@ -105,5 +108,14 @@ void unit_mpi_rt() {
         std::vector<double> rhs, x;
         SDD solve(comm, A, prm);
         (void)solve(rhs, x);
+    }
+    // MPI datatypes of every value type that can travel between ranks (C11: the datatype covers the whole value)
+    {
+        typedef std::complex<double> Cx;
+        (void)amgcl::mpi::datatype<amgcl::static_matrix<double, 2, 2> >();
+        (void)amgcl::mpi::datatype<amgcl::static_matrix<float, 3, 3> >();
+        (void)amgcl::mpi::datatype<amgcl::static_matrix<Cx, 2, 2> >();
+        (void)amgcl::mpi::datatype<amgcl::static_matrix<Cx, 3, 1> >();
+        (void)amgcl::mpi::datatype<amgcl::static_matrix<double, 4, 1> >();
     }
 }
